@@ -121,7 +121,7 @@ def run_for(scratch, tier, prop):
     specs = [dict(name=n, kind=o["kind"], contract=o["contract"], functions=o["functions"], bound=o.get("bound"))
              for n, o in OBS.items() if prop in o["props"]]
     specs.append(dict(name="canary_must_fail", kind="canary", contract="assert that must fail"))
-    obs, cmd, out = kani.run_harnesses(crate, specs, NAME, "heap", jobs=8, timeout=3000, harness_timeout="4m",
+    obs, cmd, out = kani.run_harnesses(crate, specs, NAME, "heap", jobs=8, timeout=3000, harness_timeout="10m",
                                        extra_flags=["--no-assertion-reach-checks"])
     kani.attach_counterexamples(obs, crate, "heap", out)
     return obs, meta, cmd
